@@ -77,9 +77,7 @@ where
 {
   type Unsub = ();
 
-  fn actual_subscribe(self, observer: O) -> Self::Unsub {
-    observer.complete();
-  }
+  fn actual_subscribe(self, _observer: O) -> Self::Unsub {}
 }
 
 impl ObservableExt<(), Infallible> for NeverObservable {}
